@@ -130,7 +130,7 @@ fn check_cmd(args: &[String]) -> i32 {
     "C17" => {
       CheckSpec {
         property: property.clone(), world: "W5".into(), tier: tier.clone(), seed, level: "exploration".into(),
-        rule: "W5 state-machine world: one real Interpreter per run (fresh thread, PRNG-chosen hash seed, trace on) given a generated machine — 1-4 states, 1-3 u64 payload fields, per state a direct transition or 1-4 guarded branches (comparisons of fields with constants or other fields, several of which may hold at once, usually a final wildcard), payload updates (field, constant, field +/- constant, field +/- field), self-loops and cycles, inputs from {0,1,2,3,4,5,7,10} — and 2-5 invocations in the same session, each with a PRNG-chosen transition budget (Interpreter.max_steps in {1,2,3,5,8,13,30,100,1000}). Ill-formed variants: a transition to an undeclared state, a transition to a declared state that has no arm, an argument of the wrong kind, a wrong argument count. Oracle: a reference simulation of the transition system (checked u64 arithmetic, cycle detection): result value, the sequence of (state, payload) parsed from the recorded [trace][fsm][step] events, the limit error for machines that never terminate (bounded liveness in steps), rejection of every ill-formed variant, and the next invocation after a failed or limited one is checked like any other. A run is non-trivial if at least one well-formed invocation terminated within its budget or was stopped by the limit; distinct = digest over machine text, invocations, budgets and outcomes.".into(),
+        rule: "W5 state-machine world: one real Interpreter per run (fresh thread, PRNG-chosen hash seed, trace on) given a generated machine — either an array-pattern machine (a Scan state over a [u64] vector with pair, head/rest and empty-vector arms, with and without guards, consuming or not) or 1-4 states, 1-3 u64 payload fields, per state a direct transition or 1-4 guarded branches (comparisons of fields with constants or other fields, several of which may hold at once, usually a final wildcard), payload updates (field, constant, field +/- constant, field +/- field), self-loops and cycles, inputs from {0,1,2,3,4,5,7,10} — and 2-5 invocations in the same session, each with a PRNG-chosen transition budget (Interpreter.max_steps in {1,2,3,5,8,13,30,100,1000}). Ill-formed variants: a transition to an undeclared state, a transition to a declared state that has no arm, an argument of the wrong kind, a wrong argument count. Oracle: a reference simulation of the transition system (checked u64 arithmetic, cycle detection): result value, the sequence of (state, payload) parsed from the recorded [trace][fsm][step] events, the limit error for machines that never terminate (bounded liveness in steps), rejection of every ill-formed variant, and the next invocation after a failed or limited one is checked like any other. A run is non-trivial if at least one well-formed invocation terminated within its budget or was stopped by the limit; distinct = digest over machine text, invocations, budgets and outcomes.".into(),
         worker_args: vec!["worker".into(), "--world".into(), "W5".into(), "--seed".into(), seed.to_string()],
         runs: if thorough { 600_000 } else { 40_000 },
         budget: Duration::from_secs(if thorough { 480 } else { 50 }),
@@ -143,9 +143,9 @@ fn check_cmd(args: &[String]) -> i32 {
         assumptions: vec![
           "a machine that terminates only beyond its budget may return the limit error or the correct value".into(),
           "a state in which no guard holds is not pinned down by C17 and is not judged (generated machines usually end their branches with a wildcard)".into(),
-          "array-pattern states of the property's quantifier are not generated".into(),
+          "array-pattern states are generated as one family (a Scan state destructuring a [u64] vector with [a, b | tail], [x | rest] and [] arms); the vector itself is not parsed back from the trace, only the accumulator".into(),
         ],
-        expected_reach: vec!["reach:terminating".into(), "reach:non-terminating".into(), "fault:transition-limit-fired".into(), "fault:transition-to-undeclared-state".into(), "fault:declared-state-without-arm".into(), "fault:wrong-argument-kind".into(), "fault:wrong-argument-count".into(), "fault:overflow-inside-transition".into(), "reach:invocation-after-a-failed-one-follows".into()],
+        expected_reach: vec!["reach:terminating".into(), "reach:non-terminating".into(), "fault:transition-limit-fired".into(), "fault:transition-to-undeclared-state".into(), "fault:declared-state-without-arm".into(), "fault:wrong-argument-kind".into(), "fault:wrong-argument-count".into(), "fault:overflow-inside-transition".into(), "reach:invocation-after-a-failed-one-follows".into(), "reach:array-pattern-machine".into()],
         exhaustive: false,
         extra: json!({}),
       }
